@@ -83,16 +83,18 @@ def translator_failure_is_foreign(prop, out):
     """True when the translator's error names a source file that is not among the property's anchor files
     (properties.jsonl) and a previously translated Tables.v exists."""
     import re
-    m = re.search(r"TRANSLATOR-ERROR: ((?:abasic-[\w-]+)/[\w/.-]+\.(?:rs|ts))", out)
-    if not m or not os.path.exists(os.path.join(core.COQ, "Gen", "Tables.v")):
+    lines = [l for l in out.split("\n") if l.startswith("TRANSLATOR-ERROR:")]
+    failing = [m.group(1) for m in (re.search(r"TRANSLATOR-ERROR: ((?:abasic-[\w-]+)/[\w/.-]+\.(?:rs|ts))", l) for l in lines) if m]
+    # every pass of the translator (tables, random.rs, arrays.rs) reports its own failure: all of them must name a file
+    if not failing or len(failing) != len(lines) or not all(os.path.exists(os.path.join(core.COQ, "Gen", g))
+                                                           for g in ("Tables.v", "RandomRs.v", "ArraysRs.v")):
         return False
-    failing = m.group(1)
     try:
         with open(os.path.join(core.ROOT, "properties.jsonl")) as f:
             for line in f:
                 d = json.loads(line)
                 if d.get("id") == prop:
-                    return failing not in d.get("anchors", {}).get("files", [])
+                    return not any(x in d.get("anchors", {}).get("files", []) for x in failing)
     except (OSError, ValueError):
         return False
     return False
